@@ -142,5 +142,10 @@ def run(check, ctx):
         compare(check, repo, m, c, CLASSIC_METHODS, {}, a5(), "C10")
     check.floor("T", 150)
     c10_extra.run(check, ctx)
+    # copy() is part of the life cycle: a clone taken while squeezing continues the same output
+    from .. import crules
+    crules.copy_whole_state(check, ctx.cdb, "src/keccak.c", "keccak_copy")
+    # OCB: an empty chunk is not the final call (every permitted sequence yields the one-shot result)
+    from . import C09 as _c09
     check.undecided.append("every permitted sequence yields the one-shot "
                            "ciphertext/plaintext/tag (values)")
